@@ -62,7 +62,7 @@ def utf8_name(draw, max_bytes):
 
 @st.composite
 def qcow2_meta_spec(draw, tier):
-    cb = draw(st.sampled_from([12, 16, 16, 14]))
+    cb = draw(st.sampled_from([12, 16, 16, 14, 17, 18, 21]))
     spec = draw(c01.qcow2_spec(tier, size_clusters=draw(st.integers(1, 30)), cluster_bits=cb, allow_backing=False,
                                force={"version": draw(st.sampled_from([2, 3, 3])), "data_file": False}))
     cs = 1 << cb
@@ -70,6 +70,9 @@ def qcow2_meta_spec(draw, tier):
     exts = []
     for _ in range(draw(st.integers(0, 8))):
         ln = draw(st.sampled_from([0, 1, 2, 3, 4, 5, 6, 7, 8, 9, 15, 16, 24, 40]))
+        if cb >= 17 and draw(st.integers(0, 3)) == 0:
+            # the length field is 32 bits wide: an extension longer than 64 KiB in front of further ones (large clusters only)
+            ln = draw(st.sampled_from([65528, 65529, 65535, 65536, 65537, 70000, 100001]))
         magic = draw(st.sampled_from([0x6803F857, 0x12345678, 0xCAFED00D, 0x23852875, 0x0BADF00D]))
         if magic == 0x6803F857 and any(e[0] == magic for e in exts):
             magic = 0x12345678
@@ -476,6 +479,25 @@ class Checks:
             eq(out, t, "shots", [(str(s.guid), str(s.parent)) for s in h.descriptor.snapshots.shots], [(s["guid"], s["parent"]) for s in desc["shots"]])
             tg = h.descriptor.snapshots.top_guid
             eq(out, t, "top_guid", None if tg is None else str(tg), desc.get("top_guid"))
+            # lookups by GUID answer from this descriptor (many descriptors are parsed in one process)
+            import uuid as _uuid
+
+            parent_of = {s_["guid"]: s_["parent"] for s_ in desc["shots"]}
+            for g in parent_of if len(parent_of) == len(desc["shots"]) else []:  # (duplicate GUIDs: lookups are ambiguous)
+                shot, err = lib(h.descriptor.snapshots.find_shot, _uuid.UUID(g))
+                if err:
+                    out.fail(err.sig("hdd-find-shot"), f"find_shot({g}) raised {err.describe()}")
+                    break
+                eq(out, t, "find_shot", (str(shot.guid), str(shot.parent)), (g, parent_of[g]))
+                chain, err = lib(h.descriptor.get_snapshot_chain, _uuid.UUID(g))
+                if err:
+                    out.fail(err.sig("hdd-chain"), f"get_snapshot_chain({g}) raised {err.describe()}")
+                    break
+                exp_chain, cur = [], g
+                while cur != bhdd.NULL_GUID:
+                    exp_chain.append(cur)
+                    cur = parent_of[cur]
+                eq(out, t, "snapshot_chain", [str(c) for c in chain], exp_chain)
             out.nontrivial = len(desc["storages"]) >= 2 or len(desc["shots"]) >= 2
         finally:
             shutil.rmtree(d, ignore_errors=True)
